@@ -93,8 +93,8 @@ pub(crate) struct InternalOpDetails {
   pub payload: InternalOpPayload,
 }
 
-/// `fd` recorded for a send whose connection has been closed while the kernel may still read its
-/// buffers: the entry (and with it the payload) lives on until the completion for it arrives.
+/// `fd` recorded for an operation whose descriptor has been closed while the kernel still holds it:
+/// the entry (and with it the payload) lives on until the completion for it arrives.
 pub(crate) const ORPHANED_OP_FD: RawFd = -1;
 
 /// Internal op user_data IDs are offset by this constant so they never overlap with
@@ -157,6 +157,36 @@ impl InternalOpTracker {
       .or_else(|| self.pending_notifications.get(&user_data))
   }
 
+  /// The entry a completion belongs to. The notification of a zero-copy send carries the
+  /// `user_data` of that send, which a new operation may have been given since the send's first
+  /// completion: it is looked up only among the entries that wait for a notification, and every
+  /// other completion only among the submitted operations.
+  pub fn get_for_completion(&self, user_data: UserData, is_notification: bool) -> Option<&InternalOpDetails> {
+    if is_notification {
+      return self.pending_notifications.get(&user_data);
+    }
+    if user_data < INTERNAL_OP_BASE {
+      return None;
+    }
+    self.op_to_details.get((user_data - INTERNAL_OP_BASE) as usize)
+  }
+
+  /// Removes and returns the entry a completion belongs to (see `get_for_completion`).
+  pub fn take_for_completion(&mut self, user_data: UserData, is_notification: bool) -> Option<InternalOpDetails> {
+    if is_notification {
+      return self.pending_notifications.remove(&user_data);
+    }
+    if user_data < INTERNAL_OP_BASE {
+      return None;
+    }
+    let key = (user_data - INTERNAL_OP_BASE) as usize;
+    if self.op_to_details.contains(key) {
+      Some(self.op_to_details.remove(key))
+    } else {
+      None
+    }
+  }
+
   /// Re-registers details for a SEND_ZC op that expects a second notification CQE with the
   /// same `user_data`. The entry is moved to the secondary map so `take_op_details` can find
   /// it when the kernel delivers the `IORING_CQE_F_NOTIF` completion.
@@ -179,52 +209,22 @@ impl InternalOpTracker {
       .collect()
   }
 
-  /// Removes what is tracked for a closed `fd`. Sends that were submitted stay: closing the
-  /// descriptor does not end them, and the kernel reads their buffers until it posts their
-  /// completions. They are kept as orphans (`ORPHANED_OP_FD`) and reaped by those completions.
-  pub fn remove_ops_for_fd(&mut self, fd_to_remove: RawFd) -> Vec<InternalOpDetails> {
-    let is_send = |t: InternalOpType| {
-      matches!(
-        t,
-        InternalOpType::Send
-          | InternalOpType::SendZeroCopy
-          | InternalOpType::SendRawVectored
-          | InternalOpType::SendZeroCopyLeased
-      )
-    };
+  /// The descriptor `fd` has been closed. Closing it does not end the operations that were
+  /// submitted on it: the kernel posts their completions later (and reads the buffers of sends
+  /// until then). Their entries stay, marked with `ORPHANED_OP_FD`, so that their payloads live on,
+  /// their `user_data` is not handed to a new operation, and the next owner of the descriptor
+  /// number does not find them. Each is reaped by its own completion.
+  pub fn orphan_ops_for_fd(&mut self, fd_closed: RawFd) {
     for (_, v) in self.op_to_details.iter_mut() {
-      if v.fd == fd_to_remove && is_send(v.op_type) {
+      if v.fd == fd_closed {
         v.fd = ORPHANED_OP_FD;
       }
     }
     for d in self.pending_notifications.values_mut() {
-      if d.fd == fd_to_remove && is_send(d.op_type) {
+      if d.fd == fd_closed {
         d.fd = ORPHANED_OP_FD;
       }
     }
-    let slab_keys: Vec<usize> = self
-      .op_to_details
-      .iter()
-      .filter(|(_, v)| v.fd == fd_to_remove)
-      .map(|(k, _)| k)
-      .collect();
-    let mut removed: Vec<InternalOpDetails> = slab_keys
-      .into_iter()
-      .map(|k| self.op_to_details.remove(k))
-      .collect();
-
-    let notif_keys: Vec<UserData> = self
-      .pending_notifications
-      .iter()
-      .filter(|(_, d)| d.fd == fd_to_remove)
-      .map(|(k, _)| *k)
-      .collect();
-    for k in notif_keys {
-      if let Some(d) = self.pending_notifications.remove(&k) {
-        removed.push(d);
-      }
-    }
-    removed
   }
 
   /// Finds all `UserData` for a given FD that match a predicate on the op_type.
